@@ -1719,3 +1719,50 @@ func ruleORD10(w *World, r *Report) {
 	ok, wit := mustPrecede(fn, callsTo(ss), callsTo(cp.Obj), nil)
 	r.Cond(ok && len(findInstrs(fn, callsTo(ss))) > 0, "ORD-10", "Engine.VCompress:arena-kept-until-snapshot-durable", w.Pos(vc.Decl.Pos()), "the arena of the old precision is touched only after the snapshot of the new state", "Engine.VCompress lets DB.Compress move the old arena directory away and write the new one BEFORE SaveSnapshot records the new precision: a crash between the two leaves the old snapshot next to the new arena, and the next Open fails with 'arena precision mismatch' — the whole data directory is unusable", w.witness(wit)...)
 }
+
+// ruleORD11: the replay offset (what a torn tail is truncated to, and where a resync starts) is advanced over every
+// frame that was read and decoded. A `continue` (or any other edge) that takes a decoded record back to the next
+// ReadFrame without the `validOffset += frameSize` makes the offset lag for the rest of the replay.
+func ruleORD11(w *World, r *Report) {
+	r.Doc("ORD-11", "in the replay loop every path from a frame that was read and decoded to the next ReadFrame advances the replay offset by that frame's size: the offset a torn tail is truncated to (and a resync starts from) never lags behind the frames already applied", 1)
+	rp := w.Func("pkg/engine", "Engine.replayAOF")
+	if rp == nil {
+		r.Und("ORD-11", "anchor:Engine.replayAOF", "", "anchor lost")
+		return
+	}
+	fn := w.SSAFunc(rp.Obj)
+	reads := findInstrs(fn, func(in ssa.Instruction) bool { return isCallTo(in, modPath+"/pkg/persistence", "ReadFrame") })
+	parses := findInstrs(fn, func(in ssa.Instruction) bool { return isCallTo(in, modPath+"/pkg/persistence", "ParseCommand") })
+	if len(reads) != 1 || len(parses) != 1 {
+		r.Und("ORD-11", "Engine.replayAOF:offset-advanced-over-every-decoded-frame", w.Pos(rp.Decl.Pos()), fmt.Sprintf("expected one ReadFrame and one ParseCommand call in the replay loop, found %d/%d", len(reads), len(parses)))
+		return
+	}
+	rd, ps := reads[0].(*ssa.Call), parses[0].(*ssa.Call)
+	// the advance: an ADD one of whose operands is the frame size returned by this ReadFrame
+	isSize := func(v ssa.Value) bool {
+		for {
+			switch x := v.(type) {
+			case *ssa.Convert:
+				v = x.X
+				continue
+			case *ssa.ChangeType:
+				v = x.X
+				continue
+			case *ssa.Extract:
+				return x.Tuple == ssa.Value(rd) && x.Index == 1
+			}
+			return false
+		}
+	}
+	advance := func(in ssa.Instruction) bool {
+		b, ok := in.(*ssa.BinOp)
+		return ok && b.Op == token.ADD && (isSize(b.X) || isSize(b.Y)) && b.Referrers() != nil && len(*b.Referrers()) > 0
+	}
+	if len(findInstrs(fn, advance)) == 0 {
+		r.Bad("ORD-11", "Engine.replayAOF:offset-advanced-over-every-decoded-frame", w.Pos(rp.Decl.Pos()), "no statement adds the size returned by ReadFrame to the replay offset")
+		return
+	}
+	q := pathQuery{fn: fn, target: func(in ssa.Instruction) bool { return in == ssa.Instruction(rd) }, avoid: advance, blocked: failureEdges(fn, ps)}
+	found, wit := q.find(posOf(ps))
+	r.Cond(!found, "ORD-11", "Engine.replayAOF:offset-advanced-over-every-decoded-frame", w.Pos(rp.Decl.Pos()), "every path from a decoded record to the next ReadFrame passes the `validOffset += frameSize`", "a record that was read and decoded reaches the next ReadFrame without the replay offset being advanced over it (a `continue` inside the command switch): the offset lags by that frame for the rest of the replay, a later torn tail is 'repaired' by truncating the log inside the last intact frames and a resync starts inside records that were already applied", w.witness(wit)...)
+}
